@@ -1150,6 +1150,23 @@ fn shrink_history(template: &World, h: &History, class: &str) -> History {
         // replace references to a result by a `new` summary, drop unreferenced steps
         let tys = cur.types().unwrap();
         'outer: for k in (0..cur.steps.len().saturating_sub(1)).rev() {
+            // all references to R_k at once (keeps equal values equal) ...
+            for (ni, n) in NEWS.iter().enumerate() {
+                if n.1 != tys[k] || !cur.steps.iter().any(|s| s.args().contains(&Arg::Res(k as u8))) {
+                    continue;
+                }
+                let mut c = cur.clone();
+                for s in c.steps.iter_mut() {
+                    let na: Vec<Arg> = s.args().iter().map(|a| if *a == Arg::Res(k as u8) { Arg::New(ni as u8) } else { *a }).collect();
+                    *s = s.with_args(&na);
+                }
+                if fails_as(template, &c, class).is_some() {
+                    cur = c;
+                    changed = true;
+                    break 'outer;
+                }
+            }
+            // ... then one reference at a time
             for j in (k + 1)..cur.steps.len() {
                 let args = cur.steps[j].args();
                 for (ai, a) in args.iter().enumerate() {
